@@ -1,7 +1,7 @@
 (** C06 — property theorems only.  Each is closed by [exact <lemma>] and audited with
     [Print Assumptions]. *)
 From Coq Require Import ZArith NArith List Bool.
-From PV Require Import Common.RustInt Gen.ShardingGen Shard.PgSpec Shard.HashProofs Shard.Paths Shard.PathsProofs.
+From PV Require Import Common.RustInt Gen.ShardingGen Shard.PgSpec Shard.HashProofs Shard.Paths Shard.PathsProofs Shard.Sha1 Shard.Sha1Proofs.
 Import ListNotations.
 
 (** The shard computed by the code generated from src/sharding.rs equals PostgreSQL's
@@ -13,6 +13,14 @@ Print Assumptions c06_hash_is_pg.
 Theorem c06_in_range : forall (k : Z) (n : N), (0 < n)%N -> (shard_pg k n < n)%N.
 Proof. exact shard_in_range. Qed.
 Print Assumptions c06_in_range.
+
+(** The "sha1" sharding function (model of fn sha1: hex formatting of the digest, last 8
+    characters, from_str_radix 16, modulo) never hits its unwrap() and equals the documented
+    rule: the last 4 bytes of SHA1(decimal(key)) as a big-endian integer, modulo n. *)
+Theorem c06_sha1_rule : forall (k : Z) (n : N),
+  sha1_shard k n = Some (be_valN 0 (lastn 4 (sha1 (dec k))) mod n)%N.
+Proof. exact sha1_rule. Qed.
+Print Assumptions c06_sha1_rule.
 
 (** Every delivery path decodes the canonical spelling of k to k itself (hence to the same
     shard): text Bind and binary Bind for every i64, the digit-only paths for k >= 0. *)
@@ -76,6 +84,15 @@ Example pgspec_matches_postgres :
   map (map (fun k => partition_of k 5)) pg_vectors =
   [repeat 0%N 10; repeat 1%N 10; repeat 2%N 10; repeat 3%N 10; repeat 4%N 10].
 Proof. vm_compute. reflexivity. Qed.
+
+(** Validation of the SHA-1 model: FIPS 180 test vector "abc", and the 20 (key, shard) pairs of
+    the repository's unit test (12 shards). *)
+Example sha1_vectors :
+  to_hex (sha1 [97; 98; 99]%N) = map (fun c => N.of_nat (Ascii.nat_of_ascii c))
+     (String.list_ascii_of_string "a9993e364706816aba3e25717850c26c9cd0d89d") /\
+  map (fun k => sha1_shard (Z.of_nat k) 12) (seq 0 20) =
+  map Some [4; 7; 8; 3; 6; 0; 0; 10; 3; 11; 1; 7; 4; 4; 11; 2; 5; 0; 8; 3]%N.
+Proof. vm_compute. split; reflexivity. Qed.
 
 (** Non-vacuity of the hypotheses: boundary keys are in range and reach the theorem. *)
 Example c06_boundaries : in_i64 (-9223372036854775808) /\ in_i64 9223372036854775807 /\
